@@ -771,6 +771,11 @@ class _HoistWalrus(ast.NodeTransformer):
         return node
 
 
+# record types of the code base itself (declared with the functional NamedTuple("..", [..]) form there): their fields are
+# read by name in the rules, so the class form of the same record is left a record
+ANCHOR_RECORDS = {"_FuncAdlFunction"}
+
+
 def _record_classes(trees: Dict[str, ast.Module]) -> Dict[str, List[tuple]]:
     """private NamedTuple classes written in class form with nothing but fields: {class name: [(field, default expr or None)]}"""
     out: Dict[str, List[tuple]] = {}
@@ -788,7 +793,7 @@ def _record_classes(trees: Dict[str, ast.Module]) -> Dict[str, List[tuple]]:
                     fields.append((st.target.id, st.value))
                     continue
                 ok = False
-            if not ok or not fields or c.decorator_list:
+            if not ok or not fields or c.decorator_list or c.name in ANCHOR_RECORDS:
                 continue
             if c.name in out:
                 dup.add(c.name)
@@ -1305,8 +1310,44 @@ def _explicit_visit_dispatch(trees: Dict[str, ast.Module]) -> int:
     return n_done
 
 
+class _StarCopies(ast.NodeTransformer):
+    """[*x] is list(x), (*x,) is tuple(x), {**d} is dict(d): the unpacking spellings of a copy (where the names list /
+    tuple / dict are not re-bound in the module)"""
+
+    def __init__(self, shadowed):
+        self.shadowed = shadowed
+        self.n = 0
+
+    def _call(self, name: str, arg: ast.AST, at: ast.AST):
+        self.n += 1
+        return ast.copy_location(ast.Call(func=ast.copy_location(ast.Name(id=name, ctx=ast.Load()), at), args=[arg], keywords=[]), at)
+
+    def visit_List(self, node: ast.List):
+        self.generic_visit(node)
+        if isinstance(node.ctx, ast.Load) and len(node.elts) == 1 and isinstance(node.elts[0], ast.Starred) and "list" not in self.shadowed:
+            return self._call("list", node.elts[0].value, node)
+        return node
+
+    def visit_Tuple(self, node: ast.Tuple):
+        self.generic_visit(node)
+        if isinstance(node.ctx, ast.Load) and len(node.elts) == 1 and isinstance(node.elts[0], ast.Starred) and "tuple" not in self.shadowed:
+            return self._call("tuple", node.elts[0].value, node)
+        return node
+
+    def visit_Dict(self, node: ast.Dict):
+        self.generic_visit(node)
+        if len(node.keys) == 1 and node.keys[0] is None and "dict" not in self.shadowed:
+            return self._call("dict", node.values[0], node)
+        return node
+
+
 def canonicalise(trees: Dict[str, ast.Module]) -> Dict[str, str]:
     """rename renamed private anchors back (in the trees); returns {canonical name: name used in this tree}"""
+    for t in trees.values():
+        if any((isinstance(x, (ast.List, ast.Tuple)) and len(x.elts) == 1 and isinstance(x.elts[0], ast.Starred)) or (isinstance(x, ast.Dict) and len(x.keys) == 1 and x.keys[0] is None) for x in ast.walk(t)):
+            shadowed = {n.id for n in ast.walk(t) if isinstance(n, ast.Name) and isinstance(n.ctx, (ast.Store, ast.Del)) and n.id in ("list", "tuple", "dict")} | {a.arg for a in ast.walk(t) if isinstance(a, ast.arg) and a.arg in ("list", "tuple", "dict")}
+            _StarCopies(shadowed).visit(t)
+            ast.fix_missing_locations(t)
     _explicit_visit_dispatch(trees)
     _flatten_private_bases(trees)
     _split_attr_records(trees)
